@@ -171,11 +171,15 @@ func c01RandCase(r *rng, k string) string {
 	rs := []rune(k)
 	for i, ch := range rs {
 		if r.Bool() {
-			if unicode.IsUpper(ch) {
-				rs[i] = unicode.ToLower(ch)
-			} else {
-				rs[i] = unicode.ToUpper(ch)
+			// any member of the letter's case orbit (unicode.SimpleFold): for most letters the other case, for a few a
+			// third form whose UTF-8 encoding has another length (k / K / KELVIN SIGN, s / S / LONG S, å / Å / ANGSTROM SIGN)
+			o := unicode.SimpleFold(ch)
+			for n := r.Intn(3); n > 0 && o != ch; n-- {
+				if nx := unicode.SimpleFold(o); nx != ch {
+					o = nx
+				}
 			}
+			rs[i] = o
 		}
 	}
 	return string(rs)
@@ -326,7 +330,7 @@ func genC01(c *Ctx) {
 	if c.thorough() {
 		fullNodes, prunedNodes = 3, 4
 	}
-	c.Rule = fmt.Sprintf("bounded-exhaustive block: every document (root of any kind) with at most %d nodes over the key alphabet {a,b,ab} and the leaf set {null,true,0,1.5,\"x\",[]} (plus {}), rendered as map/slice values and, when it has a non-empty object, as Go structs, x every key path of depth 1..3 over the alphabet x every ASCII re-casing of every key (584 query strings per document); then every document with %d nodes x every path of depth 1..3, with every re-casing for the paths whose proper prefix resolves; a path that already failed at a proper prefix is run in the written casing (and, at depth 2, also in the all-upper casing). random block: documents of depth <= 6 and fan-out <= 6 (objects with mixed-case ASCII and a few non-ASCII keys that stay distinct under folding, arrays of heterogeneous objects, arrays with non-object elements, nested arrays, null/bool/number/non-numeral-string leaves), each rendered as map or struct with number carriers f64/int/dec/mixed, with data-directed paths of depth 1..6 (a step follows an existing key with probability 5/6, otherwise a key that is absent; the walk continues past the point of failure) under a random re-casing. Expected answers come from c01SpecLookup on the logical document. Out-of-domain classes (no expectation): documents with numeral strings as leaves, paths through sibling keys that collide under case folding (maps only), paths through arrays that start with a number and continue with objects having the key (the answer depends on the number carrier). Paths in which a non-ASCII letter is re-cased keep their expectation but are marked out of domain for the model comparison (the model folds ASCII letters only). distinct = distinct (query skeleton, data shape to depth 2, outcome class); non-trivial = outcome class is not the most common one", fullNodes, prunedNodes)
+	c.Rule = fmt.Sprintf("bounded-exhaustive block: every document (root of any kind) with at most %d nodes over the key alphabet {a,b,ab} and the leaf set {null,true,0,1.5,\"x\",[]} (plus {}), rendered as map/slice values and, when it has a non-empty object, as Go structs, x every key path of depth 1..3 over the alphabet x every ASCII re-casing of every key (584 query strings per document); then every document with %d nodes x every path of depth 1..3, with every re-casing for the paths whose proper prefix resolves; a path that already failed at a proper prefix is run in the written casing (and, at depth 2, also in the all-upper casing). random block: documents of depth <= 6 and fan-out <= 6 (objects with mixed-case ASCII and a few non-ASCII keys that stay distinct under folding, arrays of heterogeneous objects, arrays with non-object elements, nested arrays, null/bool/number/non-numeral-string leaves), each rendered as map or struct with number carriers f64/int/dec/mixed, with data-directed paths of depth 1..6 (a step follows an existing key with probability 5/6, otherwise a key that is absent; the walk continues past the point of failure) under a random re-casing. Expected answers come from c01SpecLookup on the logical document. Out-of-domain classes (no expectation): documents with numeral strings as leaves, paths through sibling keys that collide under case folding (maps only), paths through arrays that start with a number and continue with objects having the key (the answer depends on the number carrier). Re-casing draws from the whole case orbit of a letter (unicode.SimpleFold), so ASCII keys are also asked with KELVIN SIGN / LONG S spellings and some spellings differ in UTF-8 length; the model folds with the regenerated unicode tables. distinct = distinct (query skeleton, data shape to depth 2, outcome class); non-trivial = outcome class is not the most common one", fullNodes, prunedNodes)
 
 	by := c01DocsBySize(prunedNodes)
 	paths := c01ExPaths(3)
@@ -430,8 +434,8 @@ func genC01(c *Ctx) {
 				case mode == "numeral":
 					cs.Cls, cs.InDomain, cs.XK, cs.X = "ood/numeral-string/"+rd.name, false, "", ""
 				case c01NonASCIIRecased(keys, asked):
-					// the Lean model folds ASCII letters only; the oracle (letter case is disregarded) is kept
-					cs.Cls, cs.InDomain = "ood/non-ascii-recasing/"+rd.name, false
+					// the model folds with the unicode tables of the running Go (regenerated on every run)
+					cs.Cls = "random/non-ascii-recasing/" + rd.name
 				case c01NonASCII(asked):
 					cs.Cls = "random/non-ascii-keys/" + rd.name
 				default:
@@ -446,7 +450,7 @@ func genC01(c *Ctx) {
 // ---------- random documents ----------
 
 var c01Keys = []string{"a", "b", "ab", "k", "id", "name", "userName", "Zed", "ITEMS", "x1", "a_b", "o", "xs", "q"}
-var c01UniKeys = []string{"é", "ñu", "Ωmega", "straße"}
+var c01UniKeys = []string{"é", "ñu", "Ωmega", "straße", "Ⱥccount", "ångström", "ǆ"}
 var c01Strs = []string{"", "x", "abc", "abcDEF", "hello world", "1x", "e3", "-", "true", "null"}
 var c01NumStrs = []string{"12", "0123", "1e3", "-0.50", "0"}
 var c01Nums = []string{"0", "1", "-1", "1.5", "2", "10", "0.1", "100", "-7.25", "123456789", "3.14159"}
